@@ -9,7 +9,7 @@ every table.
 import XV.Model.Decode
 import XV.Spec.Dis
 import XV.Spec.OpTables
-import XV.Props.C04Labels
+import XV.Props.C04.Labels
 namespace XV.Props.C04
 open XV XV.Model XV.Model.Decode
 
